@@ -19,6 +19,11 @@ def run(tier):
     for (k, n, m) in kinds:
         jobs.append(lambda k=k, n=n, m=m: machine_run(k, n, m, "OpsArith", depth=3, mant=53, props=False))
         jobs.append(lambda k=k, n=n, m=m: machine_run(k, n, m, "OpsArith", depth=3, mant=24, props=False))
+    nested = NESTED_QUICK if tier == "quick" else NESTED_THOROUGH
+    for (k, n, m, inner) in nested:
+        jobs.append(lambda k=k, n=n, m=m, inner=inner: machine_run(k, n, m, "OpsArith", depth=3, mant=53, props=False, inner=inner,
+                                                                   loadset="LoadSetNested",
+                                                                   timeout=1800))
     results = parallel(jobs, max_par=5)
     ref = results[0]
     chk.add_tlc(ref, "B refines A symbolically (Laurent polynomials): mul, div, add, sub, neg, chain, all presence patterns")
@@ -33,9 +38,16 @@ def run(tier):
         rep = replay(res)
         absorb_replay(chk, rep, "replay of TLC behaviour")
     require_cases(chk, chk.distinct, kinds, OPS, what="C02 arithmetic")
+    for (k, n, m, inner) in nested:
+        key = "%s%s<%s>:f64" % (k, ":%d" % n if k.endswith("Vec") else "", inner)
+        for op in (("add", "sub", "mul", "div", "neg", "powi", "recip") if inner == "Dual" and k in ("Dual", "Dual2") else ("add", "sub", "mul", "neg")):
+            if not any(c.startswith(key + "|" + op + "|") for c in chk.distinct):
+                raise ToolError("vacuity: nested type %s never exercised %s" % (key, op))
+    chk.cov["nested_configurations"] = ["%s<%s>" % (k, inner) for (k, n, m, inner) in nested]
     # implementation -> spec: random exact programs recorded on the real crate, validated by TLC
     trace_check(chk, kinds, 1500 if tier == "quick" else 20000, "C02 trace validation")
     return chk.finish(rule="one case = (concrete type, operation, syntactic form) replayed bit-exactly; behaviours are "
                            "load;load;op programs enumerated by TLC over generic operand values (all presence patterns "
-                           "of optional parts), expected results computed by the B-model over exact rationals",
+                           "of optional parts), expected results computed by the B-model over exact rationals; nested types "
+                           "(Dual<Dual64>, Dual2<Dual64>, ...) by the B-model instantiated over itself",
                       extra={"exhaustive": True})
